@@ -340,6 +340,152 @@ nso.convert_expr_to_pddl = _rec_convert
 nso.transform_expression = _rec_transform
 
 
+# ------------------------------------------------------------------ the elimination decision (correspondence (c))
+# every call of Precondition._simplify_numeric_preconditions is recorded: its conditions (exact constants), what
+# extract_eliminated_expressions returned for each equality, the calls of simplify_equality / simplify_inequality it made (the
+# assumption strings read back from the "mathematical" infix form) with their results, and what it returned
+_ORIG_EXTRACT = ne.NumericalExpressionTree.extract_eliminated_expressions
+_ORIG_SNP = pp.Precondition.__dict__["_simplify_numeric_preconditions"].__func__
+_ORIG_PP_SI, _ORIG_PP_SE = pp.simplify_inequality, pp.simplify_equality
+_ELIM = []          # the open records (a stack; the calls do not nest on the current tree)
+
+
+def exact_number(v):
+    """a float as a plain decimal with the value the shortest repr names (what the user wrote, up to 15-17 digits)"""
+    from decimal import Decimal
+    return format(Decimal(repr(float(v))), "f")
+
+
+def exact_text_of(node):
+    """prefix text of a library expression tree with exact constants (no rounding, no exponent form)"""
+    if node.is_leaf:
+        if isinstance(node.value, PDDLFunction):
+            return node.value.untyped_representation
+        return exact_number(node.value)
+    return "(%s %s %s)" % (node.value, exact_text_of(node.children[0]), exact_text_of(node.children[1]))
+
+
+def infix_to_prefix(text):
+    """the fully parenthesised infix form of NumericalExpressionTree.to_mathematical() -> prefix text with exact constants"""
+    toks = _tokens(text)
+    pos = [0]
+
+    def is_num(t):
+        try:
+            float(t)
+            return True
+        except ValueError:
+            return False
+
+    def item():
+        t = toks[pos[0]]
+        pos[0] += 1
+        if t != "(":
+            if not is_num(t):
+                raise ValueError("unexpected token %r in %r" % (t, text))
+            return exact_number(float(t))
+        nxt = toks[pos[0]]
+        if nxt != "(" and not is_num(nxt):
+            # a function: ( name argument ... )
+            parts = []
+            while toks[pos[0]] != ")":
+                parts.append(toks[pos[0]])
+                pos[0] += 1
+            pos[0] += 1
+            return "(" + " ".join(parts) + ")"
+        left = item()
+        op = toks[pos[0]]
+        pos[0] += 1
+        if op not in ARITH:
+            raise ValueError("operator expected, found %r in %r" % (op, text))
+        right = item()
+        if toks[pos[0]] != ")":
+            raise ValueError("')' expected in %r" % text)
+        pos[0] += 1
+        return "(%s %s %s)" % (op, left, right)
+    out = item()
+    if pos[0] != len(toks):
+        raise ValueError("trailing text in %r" % text)
+    return out
+
+
+def assumption_pairs(assumptions):
+    out = []
+    for a in assumptions:
+        try:
+            l, r = a.split(" = ")
+            out.append([infix_to_prefix(l), infix_to_prefix(r)])
+        except Exception as ex:  # noqa
+            out.append(["?unreadable " + repr(ex)[:80], a])
+    return out
+
+
+def _rec_extract(self):
+    rec = _ELIM[-1] if _ELIM else None
+    r = _ORIG_EXTRACT(self)
+    if rec is not None:
+        try:
+            rec["extracted"].append(None if r is None else [exact_text_of(r[0].root), exact_text_of(r[1].root)])
+        except Exception as ex:  # noqa
+            rec["extracted"].append(["?unreadable " + repr(ex)[:80], ""])
+    return r
+
+
+def _rec_pp_si(complex_numeric_expression, inequality_operator, assumptions=[], decimal_digits=nso.DEFAULT_DECIMAL_DIGITS):
+    rec = _ELIM[-1] if _ELIM else None
+    call = {"ineq": True, "assumptions": assumption_pairs(assumptions)}
+    if rec is not None:
+        rec["calls"].append(call)
+    try:
+        r = _ORIG_PP_SI(complex_numeric_expression, inequality_operator, assumptions, decimal_digits=decimal_digits)
+    except Exception as ex:
+        if rec is not None:
+            rec["calls"].pop()
+        raise
+    call["result"] = r
+    return r
+
+
+def _rec_pp_se(equation, decimal_digits=nso.DEFAULT_DECIMAL_DIGITS):
+    rec = _ELIM[-1] if _ELIM else None
+    call = {"ineq": False, "assumptions": []}
+    if rec is not None:
+        rec["calls"].append(call)
+    try:
+        r = _ORIG_PP_SE(equation, decimal_digits=decimal_digits)
+    except Exception as ex:
+        if rec is not None:
+            rec["calls"].pop()
+        raise
+    call["result"] = r
+    return r
+
+
+def _rec_snp(numeric_preconditions, decimal_digits=pp.DEFAULT_DECIMAL_DIGITS):
+    rec = {"kind": "elim", "digits": decimal_digits, "extracted": [], "calls": []}
+    try:
+        rec["conds"] = [exact_text_of(t.root) for t in numeric_preconditions]
+    except Exception as ex:  # noqa
+        rec["conds"] = None
+    _ELIM.append(rec)
+    try:
+        out = _ORIG_SNP(numeric_preconditions, decimal_digits)
+        rec["out"] = list(out)
+        return out
+    except Exception as ex:
+        rec["raised"] = type(ex).__name__
+        raise
+    finally:
+        _ELIM.pop()
+        _LOG.append(rec)
+
+
+ne.NumericalExpressionTree.extract_eliminated_expressions = _rec_extract
+pp.simplify_inequality = _rec_pp_si
+pp.simplify_equality = _rec_pp_se
+pp.Precondition._simplify_numeric_preconditions = staticmethod(_rec_snp)
+
+
 # ------------------------------------------------------------------ input handling
 def parse_prefix(text):
     return PDDLTokenizer(pddl_str=text).parse()
